@@ -20,7 +20,7 @@ pub static PROP: Prop = Prop {
     rule: "strings from strata (printable Latin-1 only / with C0-C1 controls / BMP / astral / mixed / macro 05-06 envelopes around any of those, 0-300 characters) through DataMatrix::encode_str -> data_codewords -> data::decode_str; oracle = same string back; via the reference decoder: printable-Latin-1 strings carry no ECI codeword and their Latin-1 bytes, every other string exactly one ECI 26 designator in front of the data (after a macro codeword) and its UTF-8 bytes; enumerated: all 256 bytes through latin1_to_utf8 and all 1,112,064 scalar values through utf8_to_latin1 against ISO-8859-1; non-trivial = the string forces the ECI path or is a macro envelope; distinct by string",
     assumptions: &["'printable ISO-8859-1' = U+0020-U+007E and U+00A0-U+00FF (crate documentation)", "for non-printable input the helpers may return None or the identity, never a different character"],
     extra: super::no_extra,
-    fuzz_runs: 50000,
+    fuzz_runs: 200000,
 };
 
 #[derive(Debug, Clone)]
